@@ -461,7 +461,25 @@ def f_minconsume(ctx, prog):
 
 def run(ctx):
     prog = load.program('core-full', 'serde-full')
-    roots = [k for k, i in prog.insts.items() if is_decode_root(i)]
+    # rendering code (Display / Debug impls and private helpers only they call) is C19's subject, whatever module it lives in
+    callers0 = {}
+    for inst in prog.insts.values():
+        if inst['krate'] not in ('minicbor', 'minicbor_serde'):
+            continue
+        for bi, t in mir.iter_calls(inst['body']):
+            f = t.get('f') or {}
+            cp = f.get('rpath') or f.get('path')
+            if cp and cp != inst['path']:
+                callers0.setdefault(cp, set()).add(inst['path'])
+    display_only = set(i['path'] for i in prog.insts.values() if 'fmt::Display' in i['path'] or 'fmt::Debug' in i['path'])
+    grew = True
+    while grew:
+        grew = False
+        for cp, cs in callers0.items():
+            if cp not in display_only and cp.startswith(('minicbor::', 'minicbor_serde::', '<minicbor')) and cs and cs <= display_only:
+                display_only.add(cp)
+                grew = True
+    roots = [k for k, i in prog.insts.items() if is_decode_root(i) and i['path'] not in display_only and i['path'].split('::{')[0] not in display_only]
     reach0 = set(k for k in facts.reachable(prog, roots) if prog.get(k)['krate'] in ('minicbor', 'minicbor_serde'))
     # several instances can share one definition (they differ only in erased regions / type arguments): census per definition
     by_path = {}
